@@ -105,7 +105,7 @@ SPEC = dict(
                "stun_server_path_never_touches_connectivity, server_reflexive_only_for_outstanding_transaction, server_answer_source_not_checked "
                "(documented); fallback_changes_only_by_signalling_or_known_sender + send_goes_to_selected_else_fallback (where data goes before "
                "selection); closed_component_is_inert; superseded_password_no_effect; use_candidate_from_controlled_side_rejected; "
-               "retransmission_gives_up; non_stun_no_effect (delivered from any source: documented). attributes_after_mi_ignored: whatever is appended behind a MESSAGE-INTEGRITY (USE-CANDIDATE, PRIORITY, further MI, unknown) "
+               "retransmission_gives_up; peer_reflexive_learned_with_request_priority; non_stun_no_effect (delivered from any source: documented). attributes_after_mi_ignored: whatever is appended behind a MESSAGE-INTEGRITY (USE-CANDIDATE, PRIORITY, further MI, unknown) "
                "changes nothing; response_before_remote_password_dropped. Liveness: honest_pair_connects_partial (either role assignment, any "
                "component and addresses, lossless in-order schedule); honest_pair_connects_despite_loss_partial (all 1024 combinations of role "
                "assignment x start order x triggered-check gap x an extra unreachable candidate per side and its position x loss of any subset of "
